@@ -446,9 +446,13 @@ def render_fragment(rng, g, nodes, desc, start=None, opts=None):
                 keep = descs_[:-k]
                 it_keep = iter(keep)
                 seq = [x for x in seq if x[0] == 'ring' or x in keep]
-        for kind_, x in seq:
+        for si_, (kind_, x) in enumerate(seq):
             if kind_ == 'ring':
                 tokens.append(('ring', ring_text(*x), n))
+            elif (rng.random() < opts.get('desc_in_parens', 0.0) and tokens and tokens[-1][0] in ('atom', 'close', 'ring', 'desc')
+                  and tokens[-1][0] != 'open' and not any(k2 == 'ring' for k2, _ in seq[si_ + 1:]) and any(t_[0] == 'atom' and t_[2] == n for t_ in tokens)):
+                # a descriptor as a branch of its own: C([$x])C
+                tokens.extend([('open',), ('desc', fmt_desc(*x), n, x), ('close',)])
             else:
                 tokens.append(('desc', fmt_desc(*x, explicit_single=rng.random() < opts.get('explicit_single', 0.0)), n, x))
         # ... or after ALL neighbours written as branches: CS(=O)(=O)[$]
